@@ -169,7 +169,9 @@ public:
     void rollback(std::size_t iteration) override
     {
         Checkpoint::rollback(iteration);
-        generators_.erase(generators_.begin() + iteration, generators_.end());
+
+        // keep the generator the iteration following the last remaining result starts with
+        generators_.erase(generators_.begin() + iteration + 1, generators_.end());
     }
 
     void serialize(std::ostream& out) const override
